@@ -634,6 +634,55 @@ pub fn check(prop: &str, tier: &str) -> i32 {
         rep.set("long_seeded_sweep_traced", json!({"opcode_count": 3000, "seeds_per_protocol_and_config": n, "first_seed": crate::report::sweep_base(n), "generations": runs,
             "label": "labelled sweep of a finite seed range in PRNG mode with 3 000-opcode programs, traced; not exhaustive"}));
     }
+    // a generator reused after a LARGE pickle (> 64 KiB of output, thousands of memo entries): the later, small pickles go
+    // through this property's oracle (buffers and tables that are recycled by size class)
+    if matches!(prop, "C01" | "C02" | "C04" | "C05" | "C06" | "C10") {
+        use crate::hist::Call;
+        use rayon::prelude::*;
+        let big = 12_000usize;
+        let mut hs: Vec<(Cfg, u64, Vec<Call>)> = vec![];
+        for p in (0..=5u8).rev() {
+            let coin: Vec<u8> = if p >= 4 { vec![1] } else { vec![] };
+            let small = Call::Bytes([coin.clone(), vec![0x07, 0x21, 0x03, 0x09, 0x11, 0x02]].concat());
+            let small0 = Call::Bytes(vec![0x00, 0x07, 0x21, 0x03, 0x09]);
+            let base = if prop == "C10" { Cfg::new(p) } else { Cfg::new(p).flags(true, true) };
+            for sd in [1u64, 2] {
+                hs.push((base.clone(), sd, vec![Call::SetRange(big, big), Call::Seeded, Call::SetRange(4, 9), small.clone(), small0.clone(), Call::Seeded]));
+                hs.push((base.clone(), sd, vec![Call::SetRange(big, big), Call::Bytes([coin.clone(), vec![0xa7; 600]].concat()), Call::SetRange(4, 9), Call::Reset, small.clone(), Call::Reset, small0.clone()]));
+            }
+        }
+        let res: Vec<Vec<(String, String, serde_json::Value)>> = hs
+            .par_iter()
+            .map(|(cfg, sd, h)| {
+                let mut bad = vec![];
+                for (i, r) in crate::hist::run_history(cfg, *sd, h).into_iter().skip(1) {
+                    let c = crate::hist::cfg_at(cfg, h, i);
+                    let res = crate::run::RunResult { out: r, panic: None, events: vec![] };
+                    let Some(b) = res.bytes() else { continue };
+                    let (ops, m) = analyse(b);
+                    let tr = trace::parse(&[], 0, false);
+                    let ctx = RunCtx { cfg: &c, script: &[], res: &res, tr: &tr, ops: &ops, m: m.as_ref() };
+                    for fd in mon(&ctx) {
+                        bad.push((
+                            format!("{}:reused-after-large-output", fd.class),
+                            format!("{}: call #{i} ({}) on a generator that produced a {big}-opcode pickle before: {}", c.describe(), h[i].describe(), fd.msg),
+                            json!({"kind": "history", "config": cfg.to_json(), "seed": sd, "calls": h.iter().map(|c| c.to_json()).collect::<Vec<_>>(), "failing_call": i}),
+                        ));
+                    }
+                }
+                bad
+            })
+            .collect();
+        let mut calls = 0u64;
+        for (x, (_, _, h)) in res.into_iter().zip(hs.iter()) {
+            calls += h.iter().filter(|c| matches!(c, Call::Seeded | Call::Bytes(_))).count() as u64;
+            for (c, m, r) in x {
+                rep.finding_raw(&c, &m, r);
+            }
+        }
+        rep.transitions += calls;
+        rep.set("reuse_after_large_output", json!({"histories": hs.len(), "generating_calls": calls, "large_call_opcodes": big}));
+    }
     // every entry of the embedded module table, once through GLOBAL and once through INST (text arguments)
     if matches!(prop, "C04" | "C05") {
         use rayon::prelude::*;
@@ -768,6 +817,10 @@ pub fn check(prop: &str, tier: &str) -> i32 {
         }
         rep.transitions += runs;
         rep.set("text_payload_generations", json!({"alphabet": "\\ u U ' \" a 0 x", "max_length": maxlen, "generations": runs}));
+    }
+    // the flags changed between two calls on one generator (public fields): the later call obeys the flags in force then
+    if prop == "C10" {
+        crate::hist::c10_flag_histories(&mut rep, tier == "quick");
     }
     // the opt-in flags through the command-line front end (single-file and batch mode): each flag on its own
     if prop == "C10" {
@@ -1047,22 +1100,30 @@ pub fn check_c15(tier: &str) -> i32 {
     crate::units::c15_unit(&mut rep, !quick);
     let mon = monitor_for("C15");
     let guard = |ctx: &RunCtx| -> Vec<Finding> { mon(ctx) };
-    let mut lists: Vec<(String, Vec<Mk>, bool)> = vec![];
+    // (name, mutators, generator's unsafe flag, flag given to MutatorKind::create when it differs)
+    let mut lists: Vec<(String, Vec<Mk>, bool, Option<bool>)> = vec![];
     for mk in Mk::ALL {
-        lists.push((mk.name().to_string(), vec![mk], false));
+        lists.push((mk.name().to_string(), vec![mk], false, None));
         if matches!(mk, Mk::Memoindex | Mk::Typeconfusion) {
-            lists.push((format!("{}-unsafe", mk.name()), vec![mk], true));
+            lists.push((format!("{}-unsafe", mk.name()), vec![mk], true, None));
         }
     }
-    lists.push(("full-safe".into(), FULL.to_vec(), false));
-    lists.push(("full-unsafe".into(), FULL.to_vec(), true));
-    lists.push(("reversed-safe".into(), rev_full(), false));
-    lists.push(("character+stringlen".into(), vec![Mk::Character, Mk::Stringlen], false));
+    lists.push(("full-safe".into(), FULL.to_vec(), false, None));
+    lists.push(("full-unsafe".into(), FULL.to_vec(), true, None));
+    lists.push(("reversed-safe".into(), rev_full(), false, None));
+    lists.push(("character+stringlen".into(), vec![Mk::Character, Mk::Stringlen], false, None));
+    // the two unsafe flags of the public API chosen independently: mutators created with one, the generator run with the other
+    lists.push(("memoindex-created-unsafe/generator-safe".into(), vec![Mk::Memoindex], false, Some(true)));
+    lists.push(("memoindex-created-safe/generator-unsafe".into(), vec![Mk::Memoindex], true, Some(false)));
+    lists.push(("memoindex+offbyone-created-unsafe/generator-safe".into(), vec![Mk::Memoindex, Mk::Offbyone], false, Some(true)));
+    lists.push(("full-created-unsafe/generator-safe".into(), FULL.to_vec(), false, Some(true)));
+    lists.push(("full-created-safe/generator-unsafe".into(), FULL.to_vec(), true, Some(false)));
     let verbose = std::env::var("VERIF_VERBOSE").is_ok();
     for p in 0..=5u8 {
-        for (name, list, uns) in &lists {
+        for (name, list, uns, inst) in &lists {
             for rate in [0.0f64, 1.0] {
-                let cfg = Cfg::new(p).flags(true, true).muts(list, rate, *uns);
+                let mut cfg = Cfg::new(p).flags(true, true).muts(list, rate, *uns);
+                cfg.inst_unsafe = *inst;
                 // plan A: every gate answer of the f64 alphabet, default value answers; plan B: gates {fires, declines},
                 // one value deviation per step (e.g. the boundary table index that yields NaN)
                 let mut plans: Vec<Opts> = vec![Opts {
